@@ -685,6 +685,53 @@ def c_v15_worker(shards):
     return acc
 
 
+def c_long_worker(shards):
+    """Long encoded messages through the C decoders: lengths whose positions and sizes do not fit one byte
+    (a constant-time comparison that only looks at part of a size_t shows up here: message length 255, 256...).
+    v1.5: header 00 02, a single zero at EVERY position (and none); OAEP: the 01 separator at EVERY position (and none)."""
+    acc = Acc()
+    n = 0
+    for sh in shards:
+        if sh[0] == "v15":
+            _, L = sh
+            base = bytearray((FILL[i % 8]) for i in range(L))
+            base[0], base[1] = 0, 2
+            for zpos in list(range(2, L)) + [None]:
+                em = bytearray(base)
+                if zpos is not None:
+                    em[zpos] = 0
+                em = bytes(em)
+                ref_m = R.eme_pkcs1_v15_decode(em)
+                mlen = len(ref_m) if ref_m is not None else 0
+                for epl in sorted({0, mlen, 255, 256} - ({255, 256} if L < 270 else set())):
+                    if epl > L - 11:
+                        continue
+                    res = c_v15_case(em, 1, epl, acc, ref_m)
+                    n += 1
+                    acc.seen("classes", ("c-long-v15", L, ref_m is not None, epl == 0, res))
+                    acc.count("c_v15_accept" if res == "plaintext" else "c_v15_reject" if res == "sentinel" else "c_other")
+            acc.sample({"part": "c-long/v15", "len": L, "zero_positions": "every position 2..len-1, and none"})
+        else:
+            _, hn, r = sh
+            hl = R.hash_len(hn)
+            lh = hashlib.new(hn, b"").digest()
+            for sep in list(range(r)) + [None]:
+                rest = bytearray(0x41 + (i % 23) for i in range(r))
+                if sep is not None:
+                    for i in range(sep):
+                        rest[i] = 0
+                    rest[sep] = 1
+                else:
+                    rest = bytearray(r)                  # all zero: no separator at all
+                res, fails = c_oaep_case(hn, 0, b"", lh + bytes(rest), acc)
+                n += 1
+                acc.seen("classes", ("c-long-oaep", hn, r, tuple(fails), res))
+                acc.count("c_oaep_accept" if res == "plaintext" else "c_oaep_reject")
+            acc.sample({"part": "c-long/oaep", "hash": hn, "db_after_lhash_len": r, "separator_positions": "every position, and none"})
+    acc.count("evaluations", n)
+    return acc
+
+
 # ---------------------------------------------------------------------------
 # part c-oaep: the C decoder oaep_decode through its binding
 # ---------------------------------------------------------------------------
@@ -1128,6 +1175,16 @@ def run(ctx):
         "; len 19,20 x header 00 02 x all zero subsets x expected_pt_len 0..len-10 x sentinel len {0,1,len,len+1}") + \
         "; len 12,13 x fillers {01,80,FF}"
     timed("c-v15", c_v15_worker, [[s] for s in sh])
+
+    # ---- c-long: encoded messages longer than 255 bytes, zero / separator at every position ---------
+    longL = (266, 267, 300, 512, 523) if q else (255, 256, 257, 266, 267, 268, 300, 511, 512, 513, 522, 523, 524, 768, 1034)
+    sh = [[("v15", L)] for L in longL]
+    for hn in ("sha1", "sha256"):
+        for r in ((255, 256, 257, 300, 512) if q else (254, 255, 256, 257, 258, 300, 511, 512, 513, 768, 1023, 1024, 1025)):
+            sh.append([("oaep", hn, r)])
+    grid["c-long"] = "v1.5 EM lengths %s and OAEP data-block tails of %s bytes: zero / 01 separator at every position and absent" % (
+        list(longL), "255..512" if q else "254..1025")
+    timed("c-long", c_long_worker, sh)
 
     # ---- c-oaep ----------------------------------------------------------------
     sh = []
